@@ -79,6 +79,9 @@ package parser
 //@ ensures [F1,string-value] result1 == nil && strmAll[old(pcur(p)) + 1].Type == token.STRING ==> pcur(p) == old(pcur(p)) + 2 && nodeIsTok(result0.Value, strmAll[old(pcur(p)) + 1])
 //@ ensures [F1,identifier-value] result1 == nil && strmAll[old(pcur(p)) + 1].Type == token.IDENT && strmAll[old(pcur(p)) + 2].Type != token.LPAREN ==> pcur(p) == old(pcur(p)) + 2 && nodeIsTok(result0.Value, strmAll[old(pcur(p)) + 1])
 //@ ensures [F1,call-value] result1 == nil && strmAll[old(pcur(p)) + 1].Type == token.IDENT && strmAll[old(pcur(p)) + 2].Type == token.LPAREN ==> typeIs(result0.Value, ast.Function) && unbox(result0.Value, ast.Function).Name.Name == strmAll[old(pcur(p)) + 1].Value && strmAll[pcur(p) - 1].Type == token.RPAREN && len(unbox(result0.Value, ast.Function).Arguments) == nArgs(strmAll, old(pcur(p)) + 3, pcur(p) - 1) && (forall k int :: {unbox(result0.Value, ast.Function).Arguments[k]} 0 <= k && k < len(unbox(result0.Value, ast.Function).Arguments) ==> nodeIsTok(unbox(result0.Value, ast.Function).Arguments[k], strmAll[argIx(strmAll, old(pcur(p)) + 3, k)]))
+//@ ensures [F1,assignment-from-its-tokens] result1 == nil && ident == strmAll[old(pcur(p)) - 1] ==> assignFromToks(result0, strmAll, old(pcur(p)), pcur(p))
+//@ ensures [F1,assignment-relation] result1 == nil && ident == strmAll[old(pcur(p)) - 1] ==> assignRel(result0, old(pcur(p)), pcur(p))
+//@ ensures [F1,progress] result1 == nil ==> pcur(p) > old(pcur(p))
 //@ ensures [F1,value-kinds] result1 == nil ==> strmAll[old(pcur(p)) + 1].Type == token.STRING || strmAll[old(pcur(p)) + 1].Type == token.IDENT
 
 //@ func (*Parser).parseTaskDependencies
@@ -110,6 +113,7 @@ package parser
 //@ ensures [wellformed-nodes] result1 == nil ==> ArgsOK(result0)
 // F1: no '->' : no outputs and nothing consumed; '->' followed by one STRING / IDENT: that output;
 // '->' '(' ... ')': exactly the STRING / IDENT tokens in between, in order, verbatim
+//@ ensures [F1,monotone] pcur(p) >= old(pcur(p))
 //@ ensures [F1,no-arrow-no-outputs] result1 == nil && strmAll[old(pcur(p))].Type != token.OUTPUT ==> pcur(p) == old(pcur(p)) && len(result0) == 0
 //@ ensures [F1,bare-single-output] result1 == nil && strmAll[old(pcur(p))].Type == token.OUTPUT && isArgTok(strmAll[old(pcur(p)) + 1]) ==> pcur(p) == old(pcur(p)) + 2 && len(result0) == 1 && nodeIsTok(result0[0], strmAll[old(pcur(p)) + 1])
 //@ ensures [F1,parenthesised-outputs] result1 == nil && strmAll[old(pcur(p))].Type == token.OUTPUT && strmAll[old(pcur(p)) + 1].Type == token.LPAREN ==> pcur(p) > old(pcur(p)) + 2 && strmAll[pcur(p) - 1].Type == token.RPAREN && len(result0) == nArgs(strmAll, old(pcur(p)) + 2, pcur(p) - 1) && (forall k int :: {result0[k]} 0 <= k && k < len(result0) ==> nodeIsTok(result0[k], strmAll[argIx(strmAll, old(pcur(p)) + 2, k)])) && (forall m int :: {strmAll[m]} old(pcur(p)) + 2 <= m && m < pcur(p) - 1 ==> isArgTok(strmAll[m]) || strmAll[m].Type == token.COMMA)
@@ -148,15 +152,85 @@ package parser
 //@ ensures [F1,header] result1 == nil ==> result0.Name.Name == strmAll[old(pcur(p))].Value && result0.Docstring == doc && result0.NodeType == ast.NodeTask && strmAll[old(pcur(p)) + 1].Type == token.LPAREN
 //@ ensures [F1,dependencies] result1 == nil ==> old(pcur(p)) + 2 <= tkDepEnd && strmAll[tkDepEnd].Type == token.RPAREN && len(result0.Dependencies) == nArgs(strmAll, old(pcur(p)) + 2, tkDepEnd) && (forall k int :: {result0.Dependencies[k]} 0 <= k && k < len(result0.Dependencies) ==> nodeIsTok(result0.Dependencies[k], strmAll[argIx(strmAll, old(pcur(p)) + 2, k)])) && (forall m int :: {strmAll[m]} old(pcur(p)) + 2 <= m && m < tkDepEnd ==> isArgTok(strmAll[m]) || strmAll[m].Type == token.COMMA)
 //@ ensures [F1,outputs] result1 == nil ==> outsFromToks(result0.Outputs, strmAll, tkDepEnd + 1, tkOutEnd)
+//@ ensures [F1,task-from-its-tokens] result1 == nil ==> taskFromToks(result0, strmAll, old(pcur(p)), tkDepEnd, tkOutEnd, pcur(p))
+//@ ensures [F1,task-relation] result1 == nil ==> taskRel(result0, old(pcur(p)), tkDepEnd, tkOutEnd, pcur(p))
+//@ ensures [F1,progress] result1 == nil ==> pcur(p) > old(pcur(p))
 //@ ensures [F1,body] result1 == nil ==> strmAll[tkOutEnd].Type == token.LBRACE && pcur(p) > tkOutEnd + 1 && strmAll[pcur(p) - 1].Type == token.RBRACE && len(result0.Commands) == pcur(p) - 2 - tkOutEnd && forall k int :: {result0.Commands[k]} 0 <= k && k < len(result0.Commands) ==> strmAll[tkOutEnd + 1 + k].Type == token.COMMAND && result0.Commands[k].Command == strmAll[tkOutEnd + 1 + k].Value && result0.Commands[k].NodeType == ast.NodeCommand
 
+// F1 (top level): the tree is determined by the token sequence. nodeTok[k] / nodeEnd[k] are the
+// indices of the first token of statement k and of the token after its last; statements are
+// contiguous from the first token to EOF, and node k is what stmtFromToks says about its tokens.
+//@ pred stmtStart(c0 int) := (len(nodeEnd) == 0 ? c0 : nodeEnd[len(nodeEnd) - 1])
+//@ pred ParsedSoFar(ns []ast.Node, c0 int) := len(nodeTok) == len(ns) && len(nodeEnd) == len(ns) && len(nodeDepEnd) == len(ns) && len(nodeOutEnd) == len(ns)
+//@     && (forall k int :: {ns[k]} 0 <= k && k < len(ns) ==> stmtRel(ns[k], nodeTok[k], nodeEnd[k], nodeDepEnd[k], nodeOutEnd[k]))
+//@     && (forall k int :: {nodeTok[k]} 0 <= k && k < len(ns) ==> nodeTok[k] == (k == 0 ? c0 : nodeEnd[k - 1]))
 //@ func (*Parser).Parse
 //@ requires PInv(p) && SInv() && !strmDone && p.peekCount == 0
-//@ modifies p.peekCount, p.buffer, strmLeft, strmDone, strmExp, strmLastT, strmN
+//@ modifies p.peekCount, p.buffer, strmLeft, strmDone, strmExp, strmLastT, strmN, tkDepEnd, tkOutEnd, nodeTok, nodeEnd, nodeDepEnd, nodeOutEnd
 //@ ensures [located] ErrOK(result1)
 //@ ensures [wellformed-nodes] result1 == nil ==> NodesOK(result0.Nodes)
+//@ ensures [F1,tree-from-the-token-sequence] result1 == nil ==> ParsedSoFar(result0.Nodes, old(pcur(p))) && strmAll[stmtStart(old(pcur(p)))].Type == token.EOF
+//@ at entry: ghost nodeTok = noInts()
+//@ at entry: ghost nodeEnd = noInts()
+//@ at entry: ghost nodeDepEnd = noInts()
+//@ at entry: ghost nodeOutEnd = noInts()
+//@ at call Append#0: ghost nodeTok = snoc(nodeTok, stmtStart(old(pcur(p))))
+//@ at call Append#0: ghost nodeDepEnd = snoc(nodeDepEnd, tkDepEnd)
+//@ at call Append#0: ghost nodeOutEnd = snoc(nodeOutEnd, tkOutEnd)
+//@ at call Append#0: ghost nodeEnd = snoc(nodeEnd, pcur(p))
+//@ at call Append#1: ghost nodeTok = snoc(nodeTok, stmtStart(old(pcur(p))))
+//@ at call Append#1: ghost nodeDepEnd = snoc(nodeDepEnd, 0)
+//@ at call Append#1: ghost nodeOutEnd = snoc(nodeOutEnd, 0)
+//@ at call Append#1: ghost nodeEnd = snoc(nodeEnd, pcur(p))
+//@ at call Append#2: ghost nodeTok = snoc(nodeTok, stmtStart(old(pcur(p))))
+//@ at call Append#2: ghost nodeDepEnd = snoc(nodeDepEnd, 0)
+//@ at call Append#2: ghost nodeOutEnd = snoc(nodeOutEnd, 0)
+//@ at call Append#2: ghost nodeEnd = snoc(nodeEnd, pcur(p))
+//@ at call Append#3: ghost nodeTok = snoc(nodeTok, stmtStart(old(pcur(p))))
+//@ at call Append#3: ghost nodeDepEnd = snoc(nodeDepEnd, tkDepEnd)
+//@ at call Append#3: ghost nodeOutEnd = snoc(nodeOutEnd, tkOutEnd)
+//@ at call Append#3: ghost nodeEnd = snoc(nodeEnd, pcur(p))
+//@ at return Append#0: assert [F1,lens] len(nodeTok) == len(tree.Nodes) && len(nodeEnd) == len(tree.Nodes) && len(nodeDepEnd) == len(tree.Nodes) && len(nodeOutEnd) == len(tree.Nodes) && len(tree.Nodes) >= 1 && pcur(p) == nodeEnd[len(nodeEnd) - 1]
+//@ at return Append#0: assert [F1,step0] strmAll[nodeTok[len(tree.Nodes) - 1]].Type == token.HASH && strmAll[nodeTok[len(tree.Nodes) - 1] + 2].Type == token.TASK && strmAll[nodeTok[len(tree.Nodes) - 1] + 1].Value != ""
+//@ at return Append#0: assert [F1,step1] typeIs(tree.Nodes[len(tree.Nodes) - 1], ast.Task)
+//@ at return Append#0: assert [F1,step2] unbox(tree.Nodes[len(tree.Nodes) - 1], ast.Task).Docstring.Text == strmAll[nodeTok[len(tree.Nodes) - 1] + 1].Value
+//@ at return Append#0: assert [F1,step3] taskRel(unbox(tree.Nodes[len(tree.Nodes) - 1], ast.Task), nodeTok[len(tree.Nodes) - 1] + 3, nodeDepEnd[len(tree.Nodes) - 1], nodeOutEnd[len(tree.Nodes) - 1], nodeEnd[len(tree.Nodes) - 1])
+//@ at return Append#0: assert [F1,step4] nodeTok[len(tree.Nodes) - 1] < nodeEnd[len(tree.Nodes) - 1]
+//@ at return Append#0: assert [F1,new-node] stmtFromToks(tree.Nodes[len(tree.Nodes) - 1], strmAll, nodeTok[len(tree.Nodes) - 1], nodeEnd[len(tree.Nodes) - 1], nodeDepEnd[len(tree.Nodes) - 1], nodeOutEnd[len(tree.Nodes) - 1])
+//@ at return Append#0: use stmtRel_def(tree.Nodes[len(tree.Nodes) - 1], nodeTok[len(tree.Nodes) - 1], nodeEnd[len(tree.Nodes) - 1], nodeDepEnd[len(tree.Nodes) - 1], nodeOutEnd[len(tree.Nodes) - 1])
+//@ at return Append#0: assert [F1,earlier-nodes] forall k int :: {tree.Nodes[k]} 0 <= k && k < len(tree.Nodes) - 1 ==> stmtRel(tree.Nodes[k], nodeTok[k], nodeEnd[k], nodeDepEnd[k], nodeOutEnd[k])
+//@ at return Append#0: assert [F1,contiguous] forall k int :: {nodeTok[k]} 0 <= k && k < len(tree.Nodes) ==> nodeTok[k] == (k == 0 ? old(pcur(p)) : nodeEnd[k - 1])
+//@ at return Append#0: assert [F1,docstring-task-recorded] ParsedSoFar(tree.Nodes, old(pcur(p))) && pcur(p) == stmtStart(old(pcur(p)))
+//@ at return Append#1: assert [F1,lens] len(nodeTok) == len(tree.Nodes) && len(nodeEnd) == len(tree.Nodes) && len(nodeDepEnd) == len(tree.Nodes) && len(nodeOutEnd) == len(tree.Nodes) && len(tree.Nodes) >= 1 && pcur(p) == nodeEnd[len(nodeEnd) - 1]
+//@ at return Append#1: assert [F1,new-node] stmtFromToks(tree.Nodes[len(tree.Nodes) - 1], strmAll, nodeTok[len(tree.Nodes) - 1], nodeEnd[len(tree.Nodes) - 1], nodeDepEnd[len(tree.Nodes) - 1], nodeOutEnd[len(tree.Nodes) - 1])
+//@ at return Append#1: use stmtRel_def(tree.Nodes[len(tree.Nodes) - 1], nodeTok[len(tree.Nodes) - 1], nodeEnd[len(tree.Nodes) - 1], nodeDepEnd[len(tree.Nodes) - 1], nodeOutEnd[len(tree.Nodes) - 1])
+//@ at return Append#1: assert [F1,earlier-nodes] forall k int :: {tree.Nodes[k]} 0 <= k && k < len(tree.Nodes) - 1 ==> stmtRel(tree.Nodes[k], nodeTok[k], nodeEnd[k], nodeDepEnd[k], nodeOutEnd[k])
+//@ at return Append#1: assert [F1,contiguous] forall k int :: {nodeTok[k]} 0 <= k && k < len(tree.Nodes) ==> nodeTok[k] == (k == 0 ? old(pcur(p)) : nodeEnd[k - 1])
+//@ at return Append#1: assert [F1,comment-recorded] ParsedSoFar(tree.Nodes, old(pcur(p))) && pcur(p) == stmtStart(old(pcur(p)))
+//@ at return Append#2: assert [F1,lens] len(nodeTok) == len(tree.Nodes) && len(nodeEnd) == len(tree.Nodes) && len(nodeDepEnd) == len(tree.Nodes) && len(nodeOutEnd) == len(tree.Nodes) && len(tree.Nodes) >= 1 && pcur(p) == nodeEnd[len(nodeEnd) - 1]
+//@ at return Append#2: assert [F1,step0] strmAll[nodeTok[len(tree.Nodes) - 1]].Type == token.IDENT
+//@ at return Append#2: assert [F1,step1] typeIs(tree.Nodes[len(tree.Nodes) - 1], ast.Assign)
+//@ at return Append#2: assert [F1,step2] assignRel(unbox(tree.Nodes[len(tree.Nodes) - 1], ast.Assign), nodeTok[len(tree.Nodes) - 1] + 1, nodeEnd[len(tree.Nodes) - 1])
+//@ at return Append#2: assert [F1,step3] nodeTok[len(tree.Nodes) - 1] < nodeEnd[len(tree.Nodes) - 1]
+//@ at return Append#2: assert [F1,new-node] stmtFromToks(tree.Nodes[len(tree.Nodes) - 1], strmAll, nodeTok[len(tree.Nodes) - 1], nodeEnd[len(tree.Nodes) - 1], nodeDepEnd[len(tree.Nodes) - 1], nodeOutEnd[len(tree.Nodes) - 1])
+//@ at return Append#2: use stmtRel_def(tree.Nodes[len(tree.Nodes) - 1], nodeTok[len(tree.Nodes) - 1], nodeEnd[len(tree.Nodes) - 1], nodeDepEnd[len(tree.Nodes) - 1], nodeOutEnd[len(tree.Nodes) - 1])
+//@ at return Append#2: assert [F1,earlier-nodes] forall k int :: {tree.Nodes[k]} 0 <= k && k < len(tree.Nodes) - 1 ==> stmtRel(tree.Nodes[k], nodeTok[k], nodeEnd[k], nodeDepEnd[k], nodeOutEnd[k])
+//@ at return Append#2: assert [F1,contiguous] forall k int :: {nodeTok[k]} 0 <= k && k < len(tree.Nodes) ==> nodeTok[k] == (k == 0 ? old(pcur(p)) : nodeEnd[k - 1])
+//@ at return Append#2: assert [F1,assignment-recorded] ParsedSoFar(tree.Nodes, old(pcur(p))) && pcur(p) == stmtStart(old(pcur(p)))
+//@ at return Append#3: assert [F1,lens] len(nodeTok) == len(tree.Nodes) && len(nodeEnd) == len(tree.Nodes) && len(nodeDepEnd) == len(tree.Nodes) && len(nodeOutEnd) == len(tree.Nodes) && len(tree.Nodes) >= 1 && pcur(p) == nodeEnd[len(nodeEnd) - 1]
+//@ at return Append#3: assert [F1,step0] strmAll[nodeTok[len(tree.Nodes) - 1]].Type == token.TASK
+//@ at return Append#3: assert [F1,step1] typeIs(tree.Nodes[len(tree.Nodes) - 1], ast.Task)
+//@ at return Append#3: assert [F1,step2] unbox(tree.Nodes[len(tree.Nodes) - 1], ast.Task).Docstring.Text == ""
+//@ at return Append#3: assert [F1,step3] taskRel(unbox(tree.Nodes[len(tree.Nodes) - 1], ast.Task), nodeTok[len(tree.Nodes) - 1] + 1, nodeDepEnd[len(tree.Nodes) - 1], nodeOutEnd[len(tree.Nodes) - 1], nodeEnd[len(tree.Nodes) - 1])
+//@ at return Append#3: assert [F1,step4] nodeTok[len(tree.Nodes) - 1] < nodeEnd[len(tree.Nodes) - 1]
+//@ at return Append#3: assert [F1,new-node] stmtFromToks(tree.Nodes[len(tree.Nodes) - 1], strmAll, nodeTok[len(tree.Nodes) - 1], nodeEnd[len(tree.Nodes) - 1], nodeDepEnd[len(tree.Nodes) - 1], nodeOutEnd[len(tree.Nodes) - 1])
+//@ at return Append#3: use stmtRel_def(tree.Nodes[len(tree.Nodes) - 1], nodeTok[len(tree.Nodes) - 1], nodeEnd[len(tree.Nodes) - 1], nodeDepEnd[len(tree.Nodes) - 1], nodeOutEnd[len(tree.Nodes) - 1])
+//@ at return Append#3: assert [F1,earlier-nodes] forall k int :: {tree.Nodes[k]} 0 <= k && k < len(tree.Nodes) - 1 ==> stmtRel(tree.Nodes[k], nodeTok[k], nodeEnd[k], nodeDepEnd[k], nodeOutEnd[k])
+//@ at return Append#3: assert [F1,contiguous] forall k int :: {nodeTok[k]} 0 <= k && k < len(tree.Nodes) ==> nodeTok[k] == (k == 0 ? old(pcur(p)) : nodeEnd[k - 1])
+//@ at return Append#3: assert [F1,task-recorded] ParsedSoFar(tree.Nodes, old(pcur(p))) && pcur(p) == stmtStart(old(pcur(p)))
 //@ loop 0: invariant PInv(p) && SInv() && p.peekCount == 0 && TokOK(next) && next.Type == strmLastT
 //@ loop 0: invariant NodesOK(tree.Nodes)
+//@ loop 0: invariant [F1] ParsedSoFar(tree.Nodes, old(pcur(p))) && pcur(p) - 1 == stmtStart(old(pcur(p))) && next == strmAll[pcur(p) - 1]
 //@ loop 0: decreases avail(p)
 
 // New starts the lexer goroutine behind the Tokeniser interface; the parser-side view of the token
